@@ -1,11 +1,13 @@
 PROP = dict(
-    drivers=['Loaders'],
-    gens=['xb', 'loaders'],
+    drivers=['Loaders', 'FontLoad'],
+    gens=['xb', 'loaders', 'fontpal', 'palette'],
     lake=['IcyVerif.Props.C02'],
     ns='IcyVerif.C02',
     theorems=['xb_total', 'bin_total', 'adf_total', 'idf_total', 'tnd_total', 'tdf_total', 'clipboard_total',
               'clipboard_total_checked', 'icy_chunk_total', 'icy_chunk_total_checked', 'icy_chunk_sites', 'dispatch_total',
-              'dispatch_len_le', 'sauce_length_total', 'from_bytes_total'],
+              'dispatch_len_le', 'sauce_length_total', 'from_bytes_total', 'glyph_guard_present', 'bitfont_total',
+              'bitfont_needs_zero_guard', 'palette_import_total', 'palette_import_ext_total', 'palette_number_overflow_is_err', 'palette_conversions_pinned',
+              'loader_sites_known', 'loader_sites_complete'],
     harness='c02',
     harness_timeout=3000,
     design='DESIGN.md §4 C02',
@@ -18,13 +20,26 @@ PROP = dict(
               'spellings a site owned by another property has in this tree) are regenerated from the source; the translator also '
               'refuses to run if a length guard the proofs rely on has disappeared from the source. Differential correspondence '
               'ok(dims)|err|panic:<fn> of the real loaders against the models, and an oracle (no panic / abort / hang, crash-'
-              'isolated child processes with a 4 GiB address-space cap) over every loader named by the property.',
+              'isolated child processes with a 4 GiB address-space cap) over every loader named by the property. Bitmap fonts '
+              '(Model/FontLoad) and palette importers (Model/PalLoad, on top of the C16 matchers) are models of the same kind; for '
+              'them the translator additionally regenerates a SITE INVENTORY (every line of the loader functions holding an index, '
+              'slice, unwrap, allocation from a number, arithmetic, cast, todo!) that must be covered by the table of sites the '
+              'model accounts for (loader_sites_known), the variant flag glyphZeroGuard from which bitfont_total is proved, the '
+              'flag palConversionsChecked, and the Unicode class behind the regex crate\'s \\d.',
     rule='cases: files written by the engine\'s own writers for 11 small buffers x 14 formats x (SAUCE, compression) variants; every '
          'truncation of the small ones and boundary/sampled truncations of the 4 KiB ones (all in thorough); single- and multi-byte '
          'corruptions; every header field set to 0,1,0x7f,0x80,0xff,0xffff,0xffffffff,all-ones,sign bit; hand-made XBin/BIN/ADF/IDF/'
          'Tundra files with every command/run type cut at every tail length; random bytes with and without magic under all 24 '
          'recognised extensions + unknown ones + upper case; 128-byte tails starting with SAUCE (wild and well-formed, with COMNT '
-         'blocks of right and wrong size) alone and behind content; PSF fonts; TDF bundles; palettes in 5 formats; clipboard layers '
+         'blocks of right and wrong size) alone and behind content; bitmap fonts: PSF1 charsize byte 0..255 x mode bit x data lengths '
+         '{0,1,cs-1,cs,256cs,512cs-1,512cs,512cs+1}, PSF1 mode byte 0..255 x heights {0,1,16,255}, height 0 in front of data, PSF2 with '
+         'every header field at 14 extremes on 5 consistent bases (+ data length made consistent), field pairs, every truncation, '
+         'raw fonts of every length k*256 and k*256+-1 (k<=33) with and without a sniffed magic, random bytes, the same bytes behind '
+         'the CTerm:Font DCS of the ANSI parser (slots 0,1,42,43,300,99999); TDF bundles; palettes in 5 formats: every truncation of '
+         'the engine\'s export, corruptions, 24 number spellings (0 .. 10^32, negative, empty, non-numeric, Arabic-Indic digits) in every '
+         'numeric position (version / count lines, each channel), hex fields of every width, missing / damaged magic lines, BOM, CRLF, '
+         'Unicode blanks and digits, non-UTF-8 and cut multi-byte sequences, overlong lines, many lines, random token soup, every '
+         'extension incl. unknown and none; clipboard layers '
          'incl. width*height overflow; IcyDraw chunk payloads (real ones re-packed into a minimal PNG, truncated/corrupted/reordered, '
          'synthetic ones with field extremes, continuation chunks for unseen layers). distinct_nontrivial = distinct case strings. '
          'Request lines longer than 1500 characters are sub-sampled (1/4 quick, 1/16 thorough) for the model run only.',
@@ -35,13 +50,22 @@ PROP = dict(
              'crop_loaded_file for these loaders, Layer::set_char geometry (bounds, locked/invisible, line growth), IcyDraw '
              'load_buffer chunk dispatch (END, ICED, PALETTE, SAUCE, FONT_n incl. usize parse, LAYER_n, LAYER_n~k incl. the regex '
              'LAYER_(\\d+)~(\\d+) as a hand-written matcher) + read_utf8_encoded_string + both cell decoders, '
-             'TheDrawFont::from_tdf_bytes, Layer::from_clipboard_data',
+             'TheDrawFont::from_tdf_bytes, Layer::from_clipboard_data, BitFont::from_bytes + load_psf1 + load_psf2 (incl. its i64/u64 '
+             'consistency arithmetic) + load_plain_font + glyphs_from_u8_data (loop on fuel, exhaustion = divergence) + the loop bound of '
+             'calculate_checksum, Palette::load_palette for Hex/Pal/Gpl/Ice/Txt (String::from_utf8, str::lines, the five colour regexes as '
+             'matchers - \\d as Unicode Nd, parse::<u32>()? and from_str_radix(_,16)? as explicit Err, as u8) + import_palette extension '
+             'dispatch',
     not_modelled='ORACLE ONLY (no model, the harness only checks no panic/abort/hang): the .icy PNG/zlib/base64 container (png, '
                  'base64 crates; whole-file .icy inputs), the stream parsers behind ans/ice/diz/pcb/avt/asc/msg/an1-9/seq/ata and '
-                 'unknown extensions (TermGeo, C01) incl. parse_with_parser, BitFont::from_bytes / PSF1 / PSF2 / glyphs_from_u8_data '
-                 '(C10/C17; in the XBin/ADF/IDF models the font block is only a bounds-checked slice of exactly height*256 bytes), '
+                 'unknown extensions (TermGeo, C01) incl. parse_with_parser, the glyph CONTENT of bitmap fonts (HashMap insertion, CRC value: '
+                 'C17; the C02 font model keeps size, declared length, glyph count and loop counters; in the XBin/ADF/IDF models the font '
+                 'block is only a bounds-checked slice of exactly height*256 bytes), base64 / slot parsing of the CTerm:Font DCS (C17; '
+                 'the harness encodes the payload itself), '
                  'SauceData::extract beyond its length arithmetic (strings, chrono date parser = oracle parameter dateOk, C11), '
-                 'Palette::load_palette / import_palette (regex crate, C16), guess_font_name, Palette::from_63 / from_ega_data (read '
+                 'palette METADATA (title / author / description / colour names: C16) and the regex crate itself (the matchers are '
+                 'hand-written, tied by correspondence; palette cases longer than 8000 bytes are oracle-only because the matchers are '
+                 'quadratic on one overlong line), Glyph::from_clipbard_data (a glyph, not a font; panics below 4 bytes - not in the '
+                 'property\'s list), guess_font_name, Palette::from_63 / from_ega_data (read '
                  'inside a slice whose bounds are modelled). NOT EXPRESSED: memory and time (the model does not count allocation; '
                  'a layer/buffer of declared size w x h costs w*h cells when written to - see the icyc:abort finding); usize '
                  'overflow (offsets < len + 2^33); files of 2 GiB and more for BIN/ADF/Tundra (i32 row counter, stated as a '
@@ -55,5 +79,8 @@ PROP = dict(
                  '(owned by C10/C17; exercised by the oracle on every XBin/ADF/IDF case)',
                  'dateOk (result of chrono NaiveDateTime::parse_from_str inside SauceData::extract) and the outcome of '
                  'BitFont::from_bytes / Palette::load_palette / SauceData::extract on FONT_n / PALETTE / SAUCE chunk payloads are '
-                 'parameters of the model supplied by the harness and universally quantified in the theorems'],
+                 'parameters of the IcyDraw chunk model supplied by the harness and universally quantified in icy_chunk_total '
+                 '(bitfont_total and palette_import_total now discharge the first two for the stand-alone loaders)',
+                 'HashMap::insert / Vec::push / String::from_utf8 / regex matching allocate in proportion to the data, not to a number '
+                 'in it (pinned by loader_sites_known: no with_capacity / reserve / vec![..; n] in the loader functions)'],
 )
